@@ -10,5 +10,6 @@ CONSTANTS
   MAXUPD = 0
   CANCELS = 0
   TIMERS = TRUE
+  SeesAdmitting = TRUE
 SYMMETRY Sym3
-INVARIANTS TypeOK Admission NoDoubleBooking OneTerminal CleanAfterReturn QuiescentClean NoStuckSender NoStuckWithLock
+INVARIANTS TypeOK Admission NoDoubleBooking OneTerminal CleanAfterReturn QuiescentClean NoStuckSender NoStuckWithLock CancelTakesEffect
